@@ -98,6 +98,11 @@ CHECKS = {
   "note": "Trusted: as C01 but with real lazy expiry in the storage stub and no non-expiry assumption. Real-time 'about one lease period' is decided as a bound in the prompt environment.",
   "technique": TECH + "; bounded symbolic scheduling with discrete-event symbolic time",
  },
+ "C20": {
+  "text": "Bounded symbolic model checking of the path logic: (a) UnzipToFolder with an archive of 1 (quick) / 2 (thorough) entries whose names are arbitrary ASCII strings of length 1..4 / 1..6 (every byte a solver variable): every directory/file it asks the OS to create lies inside the destination, entries that stay inside land at destDir+name - filepath.Split/Join/Clean and zip.FileHeader.FileInfo run from their real SSA; counterexamples are replayed natively with a real archive in a temporary directory; (b) ZipFolder's walk callback on symbolic small trees (files/dirs, depth 1-2, names with spaces/dots, source dir with/without trailing slash, filter answers symbolic, recursive flag): archived names == selected relative paths, and UnzipToFolder maps them back.",
+  "note": "Trusted: gosx translation (containment self-checked natively), z3; os/io/zip reader-writer/filepath.Walk are recording contract stubs with a minimal directory model. Content round trip (DEFLATE), permissions, symlinks, unicode, clashes, long names are outside the claim.",
+  "technique": TECH + "; environment (file system, archive) as recording stubs",
+ },
 }
 
 _PENDING = "check not built yet in this session (solver-based harness planned, see DESIGN.md section 4)"
